@@ -39,7 +39,7 @@ theorem tables_patterns :
     Gen.Quote.quotedPattern = "^%[0-9A-Fa-f]{2}$" ∧
     Gen.Quote.lowercaseQuotedPattern = "%(?:[0-9A-F][a-f]|[a-f][0-9A-F]|[a-f]{2})" ∧
     Gen.Quote.asciiRunPattern = "([\x00-\x7f]+)" ∧
-    Gen.Quote.c1ControlPattern = "[\x80-\x9f]" ∧
+    Gen.Quote.c1ControlPattern = "[\x80-\x9f\xa0\u1680\u2000-\u200a\u2028\u2029\u202f\u205f\u3000]" ∧
     Gen.Quote.hexAlphabet = "0123456789ABCDEFabcdef" ∧
     [Gen.Quote.quotedSplitPatternFlags, Gen.Quote.quotedPatternFlags,
       Gen.Quote.lowercaseQuotedPatternFlags, Gen.Quote.asciiRunPatternFlags,
